@@ -80,10 +80,10 @@ impl P16E1 {
             }
         }
         // Strip off the hidden bit and round-to-nearest using last 4 bits.
-        frac_z -= 0x1_0000 >> shift;
+        frac_z = frac_z.wrapping_sub(0x1_0000 >> shift);
         let bit_n_plus_one = ((frac_z >> 3) & 1) != 0;
         if bit_n_plus_one && ((((frac_z >> 4) & 1) | (frac_z & 7)) != 0) {
-            frac_z += 0x10;
+            frac_z = frac_z.wrapping_add(0x10);
         }
         // Assemble the result and return it.
         Self::from_bits(ui_z | ((frac_z >> 4) as u16))
